@@ -41,7 +41,7 @@ def c12(ctx: Ctx):
         ctx.exhaustive = True
     ctx.build_driver()
     logp = os.path.join(ctx.scratch, "log.ndjson")
-    ctx.drive(cases, logp, env={"VERIF_VALS": vals})
+    ctx.drive(cases, logp, env={"VERIF_VALS": vals}, shards=8)
     rng = random.Random(ctx.seed)
     for l in open(logp):
         o = json.loads(l)
